@@ -374,4 +374,14 @@ def R7_feature_slots(ctx):
     R4_state_model(ctx)
 
 
-RULES = [R1_relaxation, R2_queue, R3_dijkstra, R4_estimate, R5_overrides, R6_units, S0, R7_feature_slots]
+def R8_limits_only_stop(ctx):
+    """least cost is claimed for every *returned* route: a search that is stopped by a limit must not return at all — the
+    destination's label is still tentative then (shared with C10.R1 limit error propagated and C05.R2 loop exits; round 7: `break`
+    with the tree so far when the limit fires and the destination is already labelled)"""
+    from props.C10 import R1_test_first
+    from props.C05 import R2_loop_exits
+    R1_test_first(ctx)
+    R2_loop_exits(ctx)
+
+
+RULES = [R1_relaxation, R2_queue, R3_dijkstra, R4_estimate, R5_overrides, R6_units, S0, R7_feature_slots, R8_limits_only_stop]
